@@ -4,16 +4,16 @@ import subprocess
 import sys
 
 LEVEL = "exploration"
-RULE = ("complete edit neighbourhoods of 38 small valid seed files (9 PBF with raw blobs, 2 PBF with zlib/lz4 blobs, 8 o5m/o5c, 8 XML, "
+RULE = ("complete edit neighbourhoods of 39 small valid seed files (9 PBF with raw blobs, 2 PBF with zlib/lz4 blobs, 8 o5m/o5c, 8 XML, "
         "8 OPL, 4 gzip/bzip2-compressed; gen.py) plus all tiny files, enumerated by rank<->case bijection: "
         "E1 every truncation length (file; for PBF/o5m also the content of every length field with the framing / all enclosing lengths recomputed); "
         "E2 every single-byte substitution (quick: position x 17 interesting values {00,01,7f,80,ff,\",<,&,%,comma,=,@,space,LF,b+1,b-1,b^80}; "
         "thorough: x all 255 other values); E3 every single-byte deletion and every insertion of the 14 interesting constants at every position "
         "(raw; PBF/o5m also with framing lengths / all enclosing lengths recomputed); E4 (thorough) every pair of interesting substitutions "
-        "within a 16-byte window; E5 every length field (protobuf lengths, blob-header size, datasize, raw_size, o5m dataset and reference-section "
+        "within a 16-byte window (13 of the seeds); E5 every length field (protobuf lengths, blob-header size, datasize, raw_size, o5m dataset and reference-section "
         "lengths) and every string-table index/reference x {0,1,len-1,len+1,2^7,2^14,2^21,2^28,2^31-1,2^31,2^31+1,2^32-1,2^63,2^64-1} (raw and with "
-        "enclosing lengths recomputed); E6 every byte string of length <= 2 (thorough <= 3) as a whole file per format and as body after 16 valid "
-        "prefixes; E7 every string slot replaced by 1024..65537 bytes; E8/E9 every structural unit (XML element/attribute, protobuf field, blob, "
+        "enclosing lengths recomputed); E6 every byte string of length <= 2 as a whole file per format and as body after 16 valid prefixes (thorough: "
+        "length 3 after 3 of them); E7 every string slot replaced by 1024..65537 bytes; E8/E9 every structural unit (XML element/attribute, protobuf field, blob, "
         "o5m dataset, OPL line/field) deleted / duplicated. Every input runs in a forked child under ASan in two builds (-DNDEBUG and with "
         "assertions) through the format's Parser driven synchronously (two option sets) and, for E1/E5/E7/E8/E9 and compressed seeds, through "
         "osmium::io::Reader on a buffer and on a file; every delivered item is walked with explicit extent checks, then with the library's "
@@ -22,9 +22,11 @@ RULE = ("complete edit neighbourhoods of 38 small valid seed files (9 PBF with r
         "without error or >= 1 object delivered; for OPL >= 1 object) - plus every case that fails the oracle.")
 DEADLINE = {"quick": 200, "thorough": 1500}
 
-PARTS = {"quick": ["E6", "E1", "E5", "E8", "E7", "E3", "E2"],
-         "thorough": ["E1", "E5", "E8", "E7", "E3", "E2", "E6", "E4"]}
-# share of the time budget a part may use before the next one starts (the rest stays available for later parts)
+# parts in order of size (smallest first) with their relative cost (CPU seconds per shard, measured): a run may use three times
+# its share of the time that is left (the machine is shared, wall time is noisy), unused time is passed on, and a run that
+# reaches its limit stops cleanly with BOUND ... 0
+PARTS = {"quick": [("E1", 3.0), ("E5", 1.5), ("E8", 0.5), ("E7", 1.5), ("E6", 3.0), ("E3", 7.0), ("E2", 5.5)],
+         "thorough": [("E1", 3.0), ("E5", 1.5), ("E8", 0.5), ("E7", 1.5), ("E3", 7.0), ("E2", 80.0), ("E6", 80.0), ("E4", 85.0)]}
 VERIF = os.path.dirname(os.path.dirname(os.path.dirname(os.path.abspath(__file__))))
 DATA = os.path.join(VERIF, "build", "C03-data", "seeds.txt")
 
@@ -40,7 +42,8 @@ def build(ctx):
     gen_data()
     # H6: small initial parser buffers - buffers grow (and nested buffers are flushed) while builders are open, and a write or
     # a runaway iterator that leaves an object soon leaves the allocation, where ASan sees it
-    flags = ["-fno-access-control", '-DC03_DATA="%s"' % DATA, "-DOSMIUM_VERIF_PARSER_BUFFER_SIZE=512", "-DOSMIUM_VERIF_PBF_BUFFER_SIZE=256"]
+    flags = ["-fno-access-control", '-DC03_DATA="%s"' % DATA, "-DOSMIUM_VERIF_PARSER_BUFFER_SIZE=512", "-DOSMIUM_VERIF_PBF_BUFFER_SIZE=256",
+             "-DOSMIUM_VERIF_INPUT_BUFFER_SIZE=64"]   # H5: file and decompressed data reach the parsers in 64-byte pieces
     n, d = ctx.build_many([dict(name="h03n", sources=["h03.cpp"], asan=True, ndebug=True, opt="-O2", flags=flags),
                            dict(name="h03d", sources=["h03.cpp"], asan=True, ndebug=False, opt="-O1", flags=flags)])
     return {"h03n": n, "h03d": d}
@@ -50,13 +53,11 @@ def run(ctx):
     exes = build(ctx)
     if getattr(ctx, "build_only", False):
         return
-    parts = PARTS[ctx.tier]
-    for i, part in enumerate(parts):
-        for j, name in enumerate(("h03n", "h03d")):
-            # every run may use an equal share of what is left, so that late parts are capped, not starved
-            runs_left = (len(parts) - i) * 2 - j
-            budget = max(5, int(ctx.remaining() * (1.0 if runs_left == 1 else min(1.0, 2.2 / runs_left))))
-            ctx.run_harness(exes[name], ["--part", part, "--deadline", str(budget)], shards=16)
+    runs = [(part, w, name) for part, w in PARTS[ctx.tier] for name in ("h03n", "h03d")]
+    for i, (part, w, name) in enumerate(runs):
+        share = w / sum(x[1] for x in runs[i:])
+        budget = max(5, int((ctx.remaining() - 10) * min(1.0, share * 3.0)))
+        ctx.run_harness(exes[name], ["--part", part, "--deadline", str(budget)], shards=16)
     ctx.assume("an input counts as handled when parsing terminates and throws any exception derived from std::exception or delivers buffers; "
                "whether a damaged file is rejected or accepted with other content is not judged here (C02/C09)")
     ctx.assume("signed-overflow / shift undefined behaviour is not part of the oracle (ASan only); reads of stale bytes inside a std::string's own "
